@@ -237,3 +237,38 @@ func VH_C20_GetResend() {
 	vAssert(m.GetResendTimeout() == m.resendBooster.GetCurrentTimeout(), "GetResendTimeout is not the booster value")
 	vAssert(m.GetResendTimeout() == 2500*time.Millisecond, "default 1s base, 50% boost, 3 boosts is not 2.5s")
 }
+
+// VH_C20_FreshSample: "returns to the measured value when a fresh sample is
+// taken". From an arbitrary valid adaptive state (any boost count, any base)
+// in which the next response is due to be sampled (update frequency 1, or no
+// dynamic timeout set yet), a packet is sent once, and its answer arrives after
+// a symbolic delay d: afterwards GetResendTimeout() is exactly
+// max(1 s, multiplier*d) - whatever boost had accumulated is gone, also when
+// the new value equals the old base (e.g. both at the floor).
+func VH_C20_FreshSample() {
+	m := vTM(false)
+	if m.timeoutUpdateFrequency != 1 && m.hasSetDynamicTimeout {
+		return // this response is not necessarily sampled
+	}
+	seq := vU8("seq")
+	syn := vBool("syn_case")
+	if syn {
+		m.Sent(&PacketSYN{N: 20}, false)
+	} else {
+		m.Sent(&PacketData{Seq: seq}, false)
+	}
+	d := vI64("t_d")
+	vAssume(d >= 0 && d <= vMaxDur/16)
+	vAdvance(time.Duration(d))
+	if syn {
+		m.Received(&PacketSYNACK{})
+	} else {
+		m.Received(&PacketACK{Seq: seq})
+	}
+	vReach("fresh-sample")
+	want := time.Duration(m.resendMultiplier) * time.Duration(d)
+	if want < time.Second {
+		want = time.Second
+	}
+	vAssert(m.GetResendTimeout() == want, "after a fresh round-trip sample the resend timeout is not the measured value max(1s, multiplier*RTT) (a boost survived the sample)")
+}
